@@ -8,23 +8,30 @@ use paseto_core::version::{Local, PkePublic, PkeSecret};
 use crate::backends::Full;
 use crate::keys;
 
-pub fn pie_wrap<V: Full + HasKey<K>, K: SealingKey>(key: &[u8], with: &[u8]) -> Result<String, PasetoError> {
+pub fn pie_wrap<V: Full + HasKey<K>, K: SealingKey>(key: &[u8], with: &[u8]) -> Result<String, PasetoError>
+where
+    <V as HasKey<K>>::Key: Clone,
+{
     let k: Key<V, K> = keys::try_key::<V, K>(key).ok_or(PasetoError::InvalidKey)?;
     let w = keys::try_key::<V, Local>(with).ok_or(PasetoError::InvalidKey)?;
-    Ok(k.wrap_pie(&w)?.to_string())
+    // wrap a clone (wrap_pie consumes the key; cloning to keep the original is the natural call pattern)
+    Ok(k.clone().wrap_pie(&w.clone())?.to_string())
 }
 
 pub fn pie_unwrap<V: Full + HasKey<K>, K: SealingKey>(s: &str, with: &[u8]) -> Result<Vec<u8>, PasetoError> {
     let w = keys::try_key::<V, Local>(with).ok_or(PasetoError::InvalidKey)?;
     let p: PieWrappedKey<V, K> = s.parse()?;
-    Ok(keys::key_bytes(&p.unwrap(&w)?))
+    Ok(keys::key_bytes(&p.unwrap(&w.clone())?))
 }
 
-pub fn pw_wrap<V: Full + HasKey<K>, K: SealingKey>(key: &[u8], pass: &[u8], params: Option<&<V as PwWrapVersion>::Params>) -> Result<String, PasetoError> {
+pub fn pw_wrap<V: Full + HasKey<K>, K: SealingKey>(key: &[u8], pass: &[u8], params: Option<&<V as PwWrapVersion>::Params>) -> Result<String, PasetoError>
+where
+    <V as HasKey<K>>::Key: Clone,
+{
     let k: Key<V, K> = keys::try_key::<V, K>(key).ok_or(PasetoError::InvalidKey)?;
     Ok(match params {
-        Some(p) => k.password_wrap_with_params(pass, p)?,
-        None => k.password_wrap(pass)?,
+        Some(p) => k.clone().password_wrap_with_params(pass, p)?,
+        None => k.clone().password_wrap(pass)?,
     }
     .to_string())
 }
@@ -42,13 +49,13 @@ pub fn pw_params<V: Full + HasKey<K>, K: SealingKey>(s: &str) -> Result<Vec<u8>,
 pub fn seal<V: Full>(key: &[u8], to: &[u8]) -> Result<String, PasetoError> {
     let k = keys::try_key::<V, Local>(key).ok_or(PasetoError::InvalidKey)?;
     let pk = keys::try_key::<V, PkePublic>(to).ok_or(PasetoError::InvalidKey)?;
-    Ok(k.seal(&pk)?.to_string())
+    Ok(k.clone().seal(&pk.clone())?.to_string())
 }
 
 pub fn unseal<V: Full>(s: &str, with: &[u8]) -> Result<Vec<u8>, PasetoError> {
     let sk = keys::try_key::<V, PkeSecret>(with).ok_or(PasetoError::InvalidKey)?;
     let p: SealedKey<V> = s.parse()?;
-    Ok(keys::key_bytes(&p.unseal(&sk)?))
+    Ok(keys::key_bytes(&p.unseal(&sk.clone())?))
 }
 
 /// splits `kN.kind.body` into (header incl. trailing dot, decoded body)
